@@ -2406,6 +2406,18 @@ func c11DerivesFrom(v ssa.Value, set map[ssa.Value]bool) bool {
 					}
 				}
 			case *ssa.UnOp:
+				// load of a local struct value (e.g. struct{ io.Reader }{f}): what was stored into its fields
+				if al, ok := u.X.(*ssa.Alloc); ok && u.Op == token.MUL {
+					for _, ref := range *al.Referrers() {
+						if fa, isFA := ref.(*ssa.FieldAddr); isFA {
+							for _, r2 := range *fa.Referrers() {
+								if st, isSt := r2.(*ssa.Store); isSt && st.Addr == fa && rec(st.Val, d+1) {
+									return true
+								}
+							}
+						}
+					}
+				}
 				// load of a variable captured by reference: the values stored into it by the parent
 				if fv, ok := u.X.(*ssa.FreeVar); ok && u.Op == token.MUL {
 					for _, b := range freeVarBindings(fv) {
